@@ -3,6 +3,7 @@ import TornadoModel.C30.Lemmas
 import TornadoModel.C30.Multipart
 import TornadoModel.C30.Multipart2231
 import TornadoModel.C30.Inner
+import TornadoModel.C30.Latin1
 import TornadoModel.Base.Wire
 namespace TornadoModel.C30
 open TornadoModel.C06 (Str)
@@ -189,6 +190,24 @@ theorem urlencoded_utf8_roundtrip_refuted : ¬ urlencoded_utf8_roundtrip_full :=
   rw [urlencoded_utf8_names_mojibake [([233], [])] (by decide)] at h1
   revert h1
   decide
+
+/-- whatever the body, every field name `parse_qs_bytes` returns consists of code points below 256 (latin-1 reading) -/
+theorem urlencoded_names_latin1 (body : Bytes) (hb : ∀ b ∈ body, b < 256) :
+    ∀ kv ∈ parseQsBytes body, ∀ c ∈ kv.1, c < 256 :=
+  parseQsBytes_keysLt body hb
+
+/-- hence NO urlencoded body — under any client-side encoding — is parsed to a field named `名` (U+540D): for names
+    outside latin-1 the urlencoded half of the lossless clause cannot be met by any encoder -/
+theorem urlencoded_wide_name_unrecoverable (body : Bytes) (hb : ∀ b ∈ body, b < 256) (v : Bytes) :
+    parseQsBytes body ≠ Spec.expectedFields [([21517], v)] := by
+  intro h
+  have hk := parseQsBytes_keysLt body hb
+  rw [h] at hk
+  have e : Spec.expectedFields [([21517], v)] = [([21517], [v])] := by
+    simp [Spec.expectedFields, dappend, dset, dget]
+  rw [e] at hk
+  have := hk _ List.mem_cons_self 21517 List.mem_cons_self
+  omega
 
 /-! ### multipart round trip -/
 
